@@ -272,7 +272,7 @@ def run_one(ctl: explorer.Ctl, cfg: Dict[str, Any]) -> Dict[str, Any]:
     first_proc = seams.FakeProcess()
 
     def _params():
-        return seams.stdio_params(env=cfg.get("env"))
+        return seams.stdio_params(command=cfg.get("command", "fake-server"), args=cfg.get("args"), env=cfg.get("env"))
 
     def _factory(cmd, kw):
         if spawn_state.pop("fail_next", None):
@@ -400,6 +400,11 @@ def run_one(ctl: explorer.Ctl, cfg: Dict[str, Any]) -> Dict[str, Any]:
     for sp_ in pp.spawned:
         if (getattr(sp_, "kwargs", None) or {}).get("stderr") == _sp.PIPE:
             bad("stderr-piped-but-never-read", f"open_process(stderr=PIPE) with env {cfg.get('env')}")
+    # 0a. the child is started from exactly the configured program and arguments, as an argument list (never through a shell)
+    for sp_ in pp.spawned:
+        want_argv = [cfg.get("command", "fake-server"), *(cfg.get("args") or [])]
+        if not isinstance(sp_.argv, list) or list(sp_.argv) != want_argv:
+            bad("spawn-argv-not-the-configured-list", f"open_process was called with {sp_.argv!r}, configured {want_argv!r}")
     # 0b. a child that is dead when the context has been left: its stdout pipe must have been read to the end (that is what
     #     closes the descriptor); nothing is demanded when a helper process still holds the pipe open
     if proc.returncode is not None and proc.eof_on_exit and not proc.stdout.eof_seen and not proc.stdout.closed:
@@ -498,6 +503,88 @@ def run_open_fail(ctl, cfg):
 
 
 RUN_OPEN = "vf.checks.c16:run_open_fail"
+RUN_BACKLOG = "vf.checks.c16:run_backlog_exit"
+
+
+def run_backlog_exit(ctl, cfg):
+    """Class API with per-request streams: the main read stream is full of unread messages when the answer for a
+    registered id arrives; then the context is left.  Leaving must still be bounded and must terminate the child."""
+    import json
+
+    from chuk_mcp.protocol.messages.json_rpc_message import JSONRPCRequest
+    from chuk_mcp.transports.stdio.stdio_client import StdioClient
+
+    loop = new_loop(horizon=40)
+    q = seams.Quiescence(loop)
+    proc = seams.FakeProcess(obey_term=0.0 if cfg.get("signals") != "ignore-term" else None, obey_kill=0.0)
+    info: Dict[str, Any] = {}
+    note = (json.dumps({"jsonrpc": "2.0", "method": "notifications/message", "params": {"data": "x"}}) + "\n").encode()
+    resp = (json.dumps({"jsonrpc": "2.0", "id": "q1", "result": {"ok": True}}) + "\n").encode()
+
+    async def use():
+        with seams.patched_open_process(lambda cmd, kw: proc):
+            async with StdioClient(seams.stdio_params()) as client:
+                rs = client.new_request_stream("q1") if cfg["registered"] else None
+                await client.send_json(JSONRPCRequest(id="q1", method="tools/list"))
+                await q.settle()
+                if cfg["answer_first"]:
+                    proc.stdout.feed(resp)
+                    await q.settle()
+                proc.stdout.feed(note * cfg["backlog"])
+                await q.settle()
+                if not cfg["answer_first"]:
+                    proc.stdout.feed(resp)
+                    await q.settle()
+                if cfg["then"] == "more":
+                    proc.stdout.feed(note * 3)
+                    await q.settle()
+                info["t_exit_begin"] = loop.time()
+                if cfg["exit"] == "exception":
+                    raise _BodyError("body failed")
+                if cfg["exit"] == "scope-cancel":
+                    info["scope"].cancel()
+                    await asyncio.sleep(3600)
+
+    async def main():
+        with anyio.CancelScope() as scope:
+            info["scope"] = scope
+            try:
+                await use()
+            except _BodyError:
+                pass
+        info["t_done"] = loop.time()
+        await q.settle()
+        info["tasks_left"] = len([t for t in asyncio.all_tasks(loop) if not t.done()]) - 1
+
+    status, val = loop.run_main(main())
+    errors = loop.collect_errors()
+    loop.abandon()
+    viol: List[dict] = []
+
+    def bad(cls, msg, **extra):
+        viol.append({"sig": {"class": cls, "part": "backlog-exit", **extra}, "msg": f"cfg={cfg}: {msg}"})
+
+    if status != "ok":
+        bad("did-not-finish", f"leaving the context never returned: {status} {core.clean_repr(val)}", status=status,
+            registered=cfg["registered"])
+        return {"outcome": status, "violations": viol}
+    dur = info["t_done"] - info["t_exit_begin"]
+    if dur > 2.0 + 1e-3:
+        bad("exit-too-slow", f"leaving the context took {dur:.6f}s of virtual time")
+    names = [c[0] for c in proc.calls]
+    if proc.returncode is None and "kill" not in names:
+        bad("child-left-running", f"calls={names}")
+    if info.get("tasks_left"):
+        bad("tasks-left", f"{info['tasks_left']} tasks still pending")
+    if errors:
+        bad("loop-error", f"{errors[:2]}")
+    return {"outcome": f"left/{round(dur, 3)}", "violations": viol}
+
+
+def backlog_configs():
+    return [{"registered": r, "backlog": n, "answer_first": af, "then": th, "exit": e, "signals": sg}
+            for r in (True, False) for n in (0, 50, 99, 100, 101, 150) for af in (False, True) for th in ("nothing", "more")
+            for e in ("normal", "exception", "scope-cancel") for sg in (None, "ignore-term")]
 
 
 def configs_for(tier: str):
@@ -574,6 +661,15 @@ def configs_for(tier: str):
                     if entry:
                         c["entry"] = entry
                     base.append(c)
+    # program paths and arguments with white space / shell syntax: started as given
+    for command, args in (("my server", None), ("/opt/my tools/server", []), ("server --flag", []), ("sh -c 'exit 0'", None),
+                          ("fake-server", ["a b", "$HOME", ";", ""]), ("tab\there", [])):
+        for entry in (None, "transport", "with_initialize"):
+            for e in ("normal", "scope-cancel"):
+                c = {"behaviour": "well", "exit": e, "moment": "in-flight", "order": "fifo", "command": command, "args": args}
+                if entry:
+                    c["entry"] = entry
+                base.append(c)
     # helper processes holding the child's stdout; a child that dies by itself with unread output in a blocked pipe
     for b in ("grandchild-holds-stdout", "grandchild-keeps-writing", "flood-then-exit"):
         for entry in (None, "transport", "with_initialize", "reuse-client"):
@@ -614,6 +710,9 @@ def run(tier: str, only=None) -> core.Result:
     of = [{"error": e} for e in ("fnf", "perm", "os")]
     out = explorer.explore(RUN_OPEN, of, workers=1)
     sched.absorb(res, "open-process-fails", RUN_OPEN, out, of, min_outcomes=1)
+    bl = backlog_configs()
+    out = explorer.explore(RUN_BACKLOG, bl, fidelity=True)
+    sched.absorb(res, "leaving-with-a-full-read-stream-and-per-request-streams", RUN_BACKLOG, out, bl, min_outcomes=1)
     try:
         from . import c16_real
     except ImportError:
